@@ -8,6 +8,7 @@ import (
 	"hash"
 	"html/template"
 	"net/url"
+	"sync"
 	"time"
 
 	"github.com/hashicorp/go-retryablehttp"
@@ -442,8 +443,14 @@ func (c *Config) GetBCryptCost(_ context.Context) int {
 	return c.HashCost
 }
 
+// defaultJWKSFetcherStrategyLock guards the lazy initialization in GetJWKSFetcherStrategy.
+var defaultJWKSFetcherStrategyLock sync.Mutex
+
 // GetJWKSFetcherStrategy returns the JWKSFetcherStrategy.
 func (c *Config) GetJWKSFetcherStrategy(_ context.Context) JWKSFetcherStrategy {
+	// The default (and its cache) is created on first use; requests call this concurrently.
+	defaultJWKSFetcherStrategyLock.Lock()
+	defer defaultJWKSFetcherStrategyLock.Unlock()
 	if c.JWKSFetcherStrategy == nil {
 		c.JWKSFetcherStrategy = NewDefaultJWKSFetcherStrategy()
 	}
